@@ -769,6 +769,33 @@ def many_templates_session(g, n=1100, proto="v9"):
     return ops
 
 
+def long_chain_session(g, nbulk=5):
+    """C11 over a buffer far beyond one datagram: a V9 packet that defines and uses a template, ~300 KB of other packets,
+    a V9 data packet for the template learnt at the very beginning; whole, per packet and in two halves"""
+    r = g.r
+    e = Exporter(g, "v9")
+    t = r.choice(e.ids)
+    e.new_def(t, kind="data", unknown=False)
+    pks = [e.packet([e.tmpl_set([t]), e.data(t)])]
+    # the bulk: IPFIX messages of ~64 KB whose one data set refers to a template nobody announced (it is skipped, so the
+    # decoded result stays small), with a few full-size V5/V7 packets in between
+    for i in range(nbulk):
+        pks.append(g.ix_msg([g.set_(r.choice([400, 5000, 65535]), g.rbytes(r.choice([65000, 65515, 60001])))]))
+        if r.random() < 0.6:
+            pks.append(g.fixed(5, 30) if r.random() < 0.7 else g.fixed(7, 28))
+    pks.append(e.packet([e.data(t)]))
+    ops = ops_reset(("W", "S", "F"))
+    ops.append(call("W", [x for pk in pks for x in pk]))
+    k = r.randrange(1, len(pks))
+    ops.append(call("S", [x for pk in pks[:k] for x in pk]))
+    ops.append(call("S", [x for pk in pks[k:] for x in pk]))
+    for pk in pks:
+        ops.append(call("F", pk))
+    ops.append({"op": "round", "kind": "chain", "a": "W", "b": "F", "c": ""})
+    ops.append({"op": "round", "kind": "chain", "a": "S", "b": "F", "c": ""})
+    return ops
+
+
 def dup_templates_session(g):
     """one template flowset / set that defines the same id more than once among several ids, fed to twin parsers:
     the last definition wins, the reported order is the sent order, and two parsers agree (C06, C16)"""
